@@ -262,6 +262,27 @@ MultiForce(s, T, rec, del) ==
   /\ act' = Label("MultiForce", s, 0, "", T, del, rec, 0)
 
 \* has_data, data_path, run_info, log, tasks_df, str(chain), readable links: observe, change nothing, run nothing
+\* MultiChain.force given TASK OBJECTS (those of the first member): every member is forced from ITS names of these
+\* computations - the members may mount the shared pipeline under different namespaces.  (Objects a member does not
+\* have make the real call fail: not modelled, the action needs every object in both members.)
+MultiForceObj(s, T, rec, del) ==
+  /\ EnableForce /\ Tick
+  /\ Len(slot[s].rcs) = 2 /\ T # {} /\ T \subseteq Nodes[slot[s].rcs[1]]
+  /\ \E D \in {{DescId[slot[s].rcs[1]][t] : t \in T}} :
+     \E T2 \in {{n \in Nodes[slot[s].rcs[2]] : DescId[slot[s].rcs[2]][n] \in D}} :
+     /\ \A d \in D : \E n \in T2 : DescId[slot[s].rcs[2]][n] = d
+     /\ \E R1 \in {ForceStage(slot[s].held, disk, slot[s].forced, slot[s].rcs[1], T, rec, del)} :
+        \E R2 \in {ForceStage(R1.h, R1.dk, R1.fc, slot[s].rcs[2], T2, rec, del)} :
+        /\ slot' = [slot EXCEPT ![s].held = R2.h, ![s].forced = R2.fc]
+        /\ disk' = R2.dk
+        /\ lastruns' = R1.runs \o R2.runs /\ lasterr' = FALSE
+        /\ nrun' = CountRuns(R1.runs \o R2.runs)
+        /\ excuse' = IF Count
+                     THEN [k \in Ks |-> excuse[k] + Cardinality({d \in R1.marked : PersD(d) /\ KeyOf[d] = k})
+                                                  + Cardinality({d \in R2.marked : PersD(d) /\ KeyOf[d] = k})]
+                     ELSE excuse
+  /\ act' = Label("MultiForceObj", s, 0, "", T, del, rec, 0)
+
 Inspect(s) ==
   /\ Tick
   /\ slot[s].rcs # <<>>
@@ -292,6 +313,8 @@ Next ==
         \E T \in ForceSets[slot[s].rcs[m]] : ChainForce(s, m, T, rec, del)
   \/ EnableForce /\ \E s \in Slots, rec \in BOOLEAN, del \in BOOLEAN :
         Len(slot[s].rcs) = 2 /\ \E T \in ForceSets[slot[s].rcs[1]] : MultiForce(s, T, rec, del)
+  \/ EnableForce /\ \E s \in Slots, rec \in BOOLEAN, del \in BOOLEAN :
+        Len(slot[s].rcs) = 2 /\ \E T \in ForceSets[slot[s].rcs[1]] : MultiForceObj(s, T, rec, del)
   \/ \E s \in Slots : Inspect(s)
   \/ Restart
 
@@ -351,14 +374,14 @@ RunOnlyIfNeeded ==
         \/ ~PersD(d)
         \/ disk[KeyOf[d]] = <<>>
         \/ \E s \in Slots : d \in slot[s].forced \cup slot'[s].forced
-        \/ (act'.name \in {"ChainForce", "MultiForce"} /\ act'.rec)      \* marked, recomputed and un-forced in one call
+        \/ (act'.name \in {"ChainForce", "MultiForce", "MultiForceObj"} /\ act'.rec)      \* marked, recomputed and un-forced in one call
     ]_vars
 
 \* C04/C13: building another chain on a registry neither drops nor creates held values
 AddChainKeeps == [][act'.name = "AddChain" => slot'[act'.s].held = slot[act'.s].held /\ slot'[act'.s].forced = slot[act'.s].forced]_vars
 
 \* C04/C07: one call never runs a computation twice
-NoDoubleRun == [][ act'.name # "MultiForce" =>
+NoDoubleRun == [][ act'.name \notin {"MultiForce", "MultiForceObj"} =>
                      \A i, j \in 1..Len(lastruns') : i # j => lastruns'[i] # lastruns'[j] ]_vars
 
 \* C07: chain.force marks exactly T and everything downstream of it in that chain, nothing else;
@@ -406,7 +429,7 @@ ForcedRuns ==
 \* the next request is served from the result), a run that failed leaves it forced
 ForcedExactlyOnce ==
   [][ \A s \in Slots : \A d \in Ds :
-        (d \in slot[s].forced /\ d \notin slot'[s].forced /\ act'.name \in {"Request", "ChainForce", "MultiForce"})
+        (d \in slot[s].forced /\ d \notin slot'[s].forced /\ act'.name \in {"Request", "ChainForce", "MultiForce", "MultiForceObj"})
            => (\E i \in 1..Len(lastruns') : lastruns'[i] = d) /\ (PersD(d) => disk'[KeyOf[d]] # <<>>)
     ]_vars
 
